@@ -491,6 +491,29 @@ theorem integer_shift_translates (sqrt : K → K) (half : K) (n0 n1 : Int) (radi
   · unfold rectangleAt; rw [meshCoord_shift, meshCoord_shift]
   · unfold hexagonAt; rw [meshCoord_shift, meshCoord_shift]
 
+/-- `shape.spider` (one minus an offset rectangle) inherits the clauses: values in [0, 1], binary without antialiasing, and exact
+translation under integer shifts -/
+theorem spider_range_binary_shift (half sqrt2 : K) (n0 n1 : Int) (width s0 s1 ca sa : K) (aa : Bool) (i j d0 d1 : Int) :
+    (0 ≤ spiderAt half sqrt2 n0 n1 width s0 s1 ca sa aa i j ∧ spiderAt half sqrt2 n0 n1 width s0 s1 ca sa aa i j ≤ 1) ∧
+    (spiderAt half sqrt2 n0 n1 width s0 s1 ca sa false i j = 0 ∨ spiderAt half sqrt2 n0 n1 width s0 s1 ca sa false i j = 1) ∧
+    spiderAt half sqrt2 n0 n1 width (s0 + d0) (s1 + d1) ca sa aa i j = spiderAt half sqrt2 n0 n1 width s0 s1 ca sa aa (i - d0) (j - d1) := by
+  refine ⟨?_, ?_, ?_⟩
+  · unfold spiderAt; simp only
+    have h := (shape_range_01 (fun x => x) half n0 n1 0 (sqrt2 * ((max n0 n1 : Int) : K) / ((2 : Int) : K)) width 0
+      (s0 + -(sqrt2 * ((max n0 n1 : Int) : K) / ((2 : Int) : K) / ((2 : Int) : K)) * sa)
+      (s1 + sqrt2 * ((max n0 n1 : Int) : K) / ((2 : Int) : K) / ((2 : Int) : K) * ca) ca sa (fun _ => 0) (fun _ => 0) aa i j).2.1
+    constructor <;> linarith [h.1, h.2]
+  · unfold spiderAt; simp only
+    have h := (binary_without_aa (fun x => x) half n0 n1 0 (sqrt2 * ((max n0 n1 : Int) : K) / ((2 : Int) : K)) width 0
+      (s0 + -(sqrt2 * ((max n0 n1 : Int) : K) / ((2 : Int) : K) / ((2 : Int) : K)) * sa)
+      (s1 + sqrt2 * ((max n0 n1 : Int) : K) / ((2 : Int) : K) / ((2 : Int) : K) * ca) ca sa (fun _ => 0) (fun _ => 0) i j).2.1
+    rcases h with h | h <;> rw [h]
+    · right; ring
+    · left; ring
+  · unfold spiderAt; simp only
+    rw [add_right_comm s0, add_right_comm s1]
+    rw [(integer_shift_translates (fun x => x) half n0 n1 0 _ width 0 _ _ ca sa (fun _ => 0) (fun _ => 0) aa i j d0 d1).2.1]
+
 /-- the mesh index map: index `i` carries coordinate `i - ⌊n/2⌋` (so the origin sample is index `⌊n/2⌋`), and the
 half-turn about the origin sample, `i ↦ 2⌊n/2⌋ - i`, negates it -/
 theorem mesh_origin_and_half_turn (n i : Int) :
@@ -557,6 +580,24 @@ theorem mirror_when_unrotated (sqrt : K → K) (half : K) (n0 n1 : Int) (radius 
     rw [s0, s1, s2, s3, s4, s5]
     ac_rfl
 
+/-- rotated hexagons (`θₙ = n·π/3`) are mirror symmetric about the origin row too: the mirror image of normal `n` is normal
+`(6 − n) mod 6` (`θ ↦ −θ`), i.e. the permutation 0, 5, 4, 3, 2, 1 -/
+theorem mirror_rotated_hexagon (half inner : K) (n0 n1 : Int) (sinT cosT : Nat → K)
+    (perm : Nat → Nat) (hperm : perm 0 = 0 ∧ perm 1 = 5 ∧ perm 2 = 4 ∧ perm 3 = 3 ∧ perm 4 = 2 ∧ perm 5 = 1)
+    (hs : ∀ n, n < 6 → sinT (perm n) = -sinT n) (hc : ∀ n, n < 6 → cosT (perm n) = cosT n) (aa : Bool) (i j : Int) :
+    hexagonAt half inner sinT cosT n0 n1 0 0 aa (2 * (n0 / 2) - i) j = hexagonAt half inner sinT cosT n0 n1 0 0 aa i j := by
+  unfold hexagonAt
+  simp only [meshCoord_half_turn, minK_eq_min]
+  obtain ⟨p0, p1, p2, p3, p4, p5⟩ := hperm
+  have side : ∀ n, n < 6 → hexSide half inner aa (-meshCoord n0 i (0 : K)) (meshCoord n1 j 0) (sinT (perm n)) (cosT (perm n))
+      = hexSide half inner aa (meshCoord n0 i 0) (meshCoord n1 j 0) (sinT n) (cosT n) := by
+    intro n hn; rw [hs n hn, hc n hn]; unfold hexSide; simp only [neg_mul_neg]
+  have s0 := side 0 (by omega); have s1 := side 1 (by omega); have s2 := side 2 (by omega)
+  have s3 := side 3 (by omega); have s4 := side 4 (by omega); have s5 := side 5 (by omega)
+  rw [p0] at s0; rw [p1] at s1; rw [p2] at s2; rw [p3] at s3; rw [p4] at s4; rw [p5] at s5
+  rw [s0, s1, s2, s3, s4, s5]
+  ac_rfl
+
 
 /-- KNOWN FINDING (KF-C20-hex-gap0-shared-edge), witness on the model: with `seg_gap = 0` and no antialiasing the edge test
 is the closed half-plane `rho ≤ inner` on both sides of a shared edge, so a pixel centre lying exactly on the common edge of two
@@ -618,6 +659,40 @@ theorem hex_clear_of_border {K : Type} [Field K] [LinearOrder K] [IsStrictOrdere
   · exact hex_border_unrotated half hh R g pad sinT cosT size k a i j hh56 hh1 hR hg hpad hk hsize (by simpa using hT) ha hb hin
   · exact hex_border_rotated half hh R g pad sinT cosT size k a i j hh56 hh1 hR hg hpad hk hsize (by simpa using hT) ha hb hin
 
+/-- the same with the array size the code computes, `size = ceil((2k+1)·inner·2 + 2k·g + 2·pad)` (`hexSegmentsSize`, the definition the
+driver runs), for any `ceil` with `x ≤ ceil x` -/
+theorem hex_clear_of_border_code_size {K : Type} [Field K] [LinearOrder K] [IsStrictOrderedRing K]
+    (ceil : K → Int) (hceil : ∀ x : K, x ≤ ((ceil x : Int) : K))
+    (half hh R g : K) (pad : Nat) (sinT cosT : Nat → K) (k : Nat) (a : HexCell) (i j : Int) (rotate : Bool)
+    (hh56 : 5 / 6 ≤ hh) (hh1 : hh ≤ 1) (hR : 0 ≤ R) (hg : 0 ≤ g) (hpad : 2 ≤ pad) (hk : 1 ≤ k)
+    (hT : if rotate then
+            (sinT 0 = 0 ∧ cosT 0 = 1 ∧ sinT 1 = hh ∧ cosT 1 = 1 / 2 ∧ sinT 2 = hh ∧ cosT 2 = -(1 / 2) ∧
+             sinT 3 = 0 ∧ cosT 3 = -1 ∧ sinT 4 = -hh ∧ cosT 4 = -(1 / 2) ∧ sinT 5 = -hh ∧ cosT 5 = 1 / 2)
+          else
+            (sinT 0 = 1 / 2 ∧ cosT 0 = hh ∧ sinT 1 = 1 ∧ cosT 1 = 0 ∧ sinT 2 = 1 / 2 ∧ cosT 2 = -hh ∧
+             sinT 3 = -(1 / 2) ∧ cosT 3 = -hh ∧ sinT 4 = -1 ∧ cosT 4 = 0 ∧ sinT 5 = -(1 / 2) ∧ cosT 5 = hh))
+    (hcell : a ∈ segCells k)
+    (hin : hexagonAt half (R * hh) sinT cosT (hexSegmentsSize ceil k pad (R * hh) g) (hexSegmentsSize ceil k pad (R * hh) g)
+          (hexToRC (2 * hh) hh (3 / 2) a (R + g / 2) rotate).1 (hexToRC (2 * hh) hh (3 / 2) a (R + g / 2) rotate).2 false i j = 1) :
+    (1 ≤ i ∧ i ≤ hexSegmentsSize ceil k pad (R * hh) g - 2) ∧ (1 ≤ j ∧ j ≤ hexSegmentsSize ceil k pad (R * hh) g - 2) := by
+  refine hex_clear_of_border half hh R g (pad : K) sinT cosT _ k a i j rotate hh56 hh1 hR hg (by exact_mod_cast hpad) hk ?_ hT hcell hin
+  have := hceil (((k * 2 + 1 : Nat) : K) * (R * hh) * ((2 : Nat) : K) + ((k * 2 : Nat) : K) * g + ((pad * 2 : Nat) : K))
+  unfold hexSegmentsSize
+  refine le_trans (le_of_eq ?_) this
+  push_cast; ring
+
+/-- KNOWN FINDING (KF-C20-hex-gap0-shared-edge), witness at a concrete pixel of the model: for an integer circumradius `R`, gap 0 and no
+antialiasing, the pixel `R` columns right of the centre sample (`(⌊n/2⌋, ⌊n/2⌋ + R)`, the right-hand vertex of the central hexagon) is
+drawn both by the central segment and by its neighbour at cell `(1, 0, −1)` — the two masks overlap -/
+theorem kf_hex_gap0_shared_vertex_pixel {K : Type} [Field K] [LinearOrder K] [IsStrictOrderedRing K]
+    (half hh : K) (sinT cosT : Nat → K) (n : Int) (R : ℕ) (hhpos : 0 < hh)
+    (hT : sinT 0 = 1 / 2 ∧ cosT 0 = hh ∧ sinT 1 = 1 ∧ cosT 1 = 0 ∧ sinT 2 = 1 / 2 ∧ cosT 2 = -hh ∧
+          sinT 3 = -(1 / 2) ∧ cosT 3 = -hh ∧ sinT 4 = -1 ∧ cosT 4 = 0 ∧ sinT 5 = -(1 / 2) ∧ cosT 5 = hh) :
+    hexagonAt half ((R : K) * hh) sinT cosT n n 0 0 false (n / 2) (n / 2 + R) = 1 ∧
+    hexagonAt half ((R : K) * hh) sinT cosT n n (hexToRC (2 * hh) hh (3 / 2) (1, 0, -1) ((R : K) + 0 / 2) false).1
+      (hexToRC (2 * hh) hh (3 / 2) (1, 0, -1) ((R : K) + 0 / 2) false).2 false (n / 2) (n / 2 + R) = 1 :=
+  kf_vertex_pixel half hh sinT cosT n R hhpos hT
+
 /-- the real constant: `5/6 ≤ √3/2 ≤ 1` -/
 theorem sqrt3_half_in_range : (5 : ℝ) / 6 ≤ √3 / 2 ∧ √3 / 2 ≤ 1 ∧ 0 < √3 / 2 := sqrt3_half_bounds
 
@@ -650,5 +725,22 @@ theorem hexagon_normals_mirror (n : ℕ) (hn : n < 6) :
     rw [Nat.cast_sub (by omega)]; push_cast; ring
   rw [e, Real.sin_two_pi_sub, Real.cos_two_pi_sub]; exact ⟨rfl, rfl⟩
 
+
+/-- … and, rotated (φ = 0), the hypotheses of `mirror_rotated_hexagon`: `θ_{(6−n) mod 6} ≡ −θₙ` -/
+theorem hexagon_normals_mirror_rotated (n : ℕ) (hn : n < 6) :
+    Real.sin ((((6 - n) % 6 : ℕ) : ℝ) * Real.pi / 3) = -Real.sin ((n : ℝ) * Real.pi / 3) ∧
+    Real.cos ((((6 - n) % 6 : ℕ) : ℝ) * Real.pi / 3) = Real.cos ((n : ℝ) * Real.pi / 3) := by
+  have e : ∀ k : ℕ, k ≤ 6 → ((6 - k : ℕ) : ℝ) * Real.pi / 3 = 2 * Real.pi - (k : ℝ) * Real.pi / 3 := by
+    intro k hk; rw [Nat.cast_sub hk]; push_cast; ring
+  have h : n = 0 ∨ n = 1 ∨ n = 2 ∨ n = 3 ∨ n = 4 ∨ n = 5 := by omega
+  rcases h with rfl | rfl | rfl | rfl | rfl | rfl
+  · simp
+  · rw [show (6 - 1) % 6 = 6 - 1 from rfl, e 1 (by omega), Real.sin_two_pi_sub, Real.cos_two_pi_sub]; exact ⟨rfl, rfl⟩
+  · rw [show (6 - 2) % 6 = 6 - 2 from rfl, e 2 (by omega), Real.sin_two_pi_sub, Real.cos_two_pi_sub]; exact ⟨rfl, rfl⟩
+  · have h3 : (((6 - 3) % 6 : ℕ) : ℝ) * Real.pi / 3 = Real.pi := by norm_num
+    have h3' : ((3 : ℕ) : ℝ) * Real.pi / 3 = Real.pi := by norm_num
+    rw [h3]; simp
+  · rw [show (6 - 4) % 6 = 6 - 4 from rfl, e 4 (by omega), Real.sin_two_pi_sub, Real.cos_two_pi_sub]; exact ⟨rfl, rfl⟩
+  · rw [show (6 - 5) % 6 = 6 - 5 from rfl, e 5 (by omega), Real.sin_two_pi_sub, Real.cos_two_pi_sub]; exact ⟨rfl, rfl⟩
 
 end Lentil.C20
